@@ -557,6 +557,9 @@ def render_template(t):
         return render_value(t[1])
     if k == "unq":
         return "~" + t[1]
+    if k == "nested":
+        # an unquote whose expression is itself a template: its gensyms are its own
+        return "~`" + render_template(t[1])
     if k == "splice":
         return "~@" + t[1]
     if k == "list":
@@ -570,14 +573,20 @@ def render_template(t):
     raise ValueError(t)
 
 
-def expected(t, ns: NsState):
-    """expected data as a comparable tree; gensyms are ("G", base)"""
+def expected(t, ns: NsState, cur=0, ctr=None):
+    """expected data as a comparable tree; gensyms are ("G", base, scope): every template (the outer one and
+    each template nested in an unquote) has its own scope"""
+    if ctr is None:
+        ctr = [0]               # last scope id handed out
     k = t[0]
     if k == "sym":
         r = ns.resolve(t[1], t[2])
         return ("sym", r[0], r[1])
     if k == "gensym":
-        return ("G", t[1])
+        return ("G", t[1], cur)
+    if k == "nested":
+        ctr[0] += 1
+        return expected(t[1], ns, ctr[0], ctr)
     if k == "amp":
         return ("sym", None, "&")
     if k == "dot":
@@ -592,14 +601,44 @@ def expected(t, ns: NsState):
             if x[0] == "splice":
                 out.extend(val_tree(v) for v in x[2])
             else:
-                out.append(expected(x, ns))
+                out.append(expected(x, ns, cur, ctr))
         if k == "list" and not out and t[1]:
             # a list emptied by splices: (seq (concat nil)) is nil, as in Clojure; () is fine too
             return ("empty-list-or-nil",)
         return (k, tuple(out)) if k != "set" else (k, frozenset(out))
     if k == "map":
-        return ("map", frozenset((expected(a, ns), expected(b, ns)) for a, b in t[1]))
+        return ("map", frozenset((expected(a, ns, cur, ctr), expected(b, ns, cur, ctr)) for a, b in t[1]))
     raise ValueError(t)
+
+
+def erase_scope(tree):
+    if isinstance(tree, tuple) and tree and tree[0] == "G":
+        return ("G", tree[1])
+    if isinstance(tree, tuple):
+        return tuple(erase_scope(x) for x in tree)
+    if isinstance(tree, frozenset):
+        return frozenset(erase_scope(x) for x in tree)
+    return tree
+
+
+def scoped_names(real, want, out):
+    """walk the ordered parts of both trees in parallel: (base, scope) -> real generated names"""
+    if isinstance(want, tuple) and want and want[0] == "G" and isinstance(real, tuple) and real and real[0] == "G" and len(real) == 3:
+        out.setdefault((want[1], want[2]), set()).add(real[2])
+    elif isinstance(want, tuple) and isinstance(real, tuple) and want and real and want[0] == real[0] and want[0] in ("list", "vec") \
+            and len(want[1]) == len(real[1]):
+        for r, w_ in zip(real[1], want[1]):
+            scoped_names(r, w_, out)
+
+
+def has_nested(t):
+    if t[0] == "nested":
+        return True
+    if t[0] in ("list", "vec", "set"):
+        return any(has_nested(x) for x in t[1])
+    if t[0] == "map":
+        return any(has_nested(a) or has_nested(b) for a, b in t[1])
+    return False
 
 
 def val_tree(v):
@@ -700,7 +739,8 @@ def templates(draw, depth=3, top=True):
     splice = st.sampled_from([["splice", "[1 2]", [1, 2]], ["splice", "(list :a)", [["kw", None, "a"]]], ["splice", "nil", []],
                               ["splice", "[]", []], ["splice", "[[3]]", [["v", [3]]]]])
     if kind in ("list", "vec"):
-        items = draw(st.lists(st.one_of(templates(depth=depth - 1, top=False), templates(depth=depth - 1, top=False), splice), max_size=4))
+        nested = templates(depth=depth - 1, top=False).map(lambda x: ["nested", x])
+        items = draw(st.lists(st.one_of(templates(depth=depth - 1, top=False), templates(depth=depth - 1, top=False), splice, nested), max_size=4))
         return [kind, items]
     if kind == "set":
         # members that cannot collide after resolution: constants and gensyms
@@ -744,11 +784,29 @@ def check_template(rec, t, nsconf):
             except Exception as e:  # noqa
                 raise Violation(f"template-raises:{type(e).__name__}", case, f"{src}: {type(e).__name__}: {str(e)[:200]}")
             trees.append(real_tree(v, {}))
+        nested = has_nested(t)
+        want_scoped, want = want, erase_scope(want)
         if not tree_match(strip_g(trees[0]), want):
             raise Violation("template-expands-differently", case, f"{src} in ns state {nsconf}: evaluated form {boot.core('pr-str')(v)}; expected {show_tree(want)}")
         names = [{}, {}]
         gen_names(trees[0], names[0])
         gen_names(trees[1], names[1])
+        if nested:
+            # scopes: the same x# inside one template is one symbol; the x# of a template nested in an unquote (or of
+            # two sibling nested templates) are different symbols
+            sc = [{}, {}]
+            scoped_names(trees[0], want_scoped, sc[0])
+            scoped_names(trees[1], want_scoped, sc[1])
+            for key, real in sc[0].items():
+                if len(real) != 1:
+                    raise Violation("gensym-not-consistent-within-template", case, f"{src}: {key[0]}# (template {key[1]}) became {sorted(real)}")
+                if real & sc[1].get(key, set()):
+                    raise Violation("gensym-not-fresh-across-reads", case, f"{src}: {key[0]}# is {sorted(real)} in two separate reads")
+            for (k1, r1), (k2, r2) in itertools.combinations(list(sc[0].items()), 2):
+                if r1 & r2:
+                    raise Violation("two-gensyms-share-a-name", case,
+                                    f"{src}: {k1[0]}# of template {k1[1]} and {k2[0]}# of template {k2[1]} are both {sorted(r1 & r2)}: a template nested in an unquote captured the enclosing template's generated name")
+            return
         for base, real in names[0].items():
             if len(real) != 1:
                 raise Violation("gensym-not-consistent-within-template", case, f"{src}: {base}# became {sorted(real)}")
